@@ -704,7 +704,7 @@ def subst_d0(t):
 # ---- R5: the lexer produces every well-formed literal as one NUMBER token ----------------------------------------
 class PatternLexDomain(c12.LexDomain):
     """LexDomain over a reduced alphabet that records the class pattern of the consumed characters."""
-    CLS = {"5": "D", "0": "D", ".": ".", "e": "e", "E": "e", "+": "+", "-": "-"}
+    CLS = {"5": "D", "0": "D", ".": ".", "e": "e", "E": "E", "+": "+", "-": "-"}
 
     def call(self, it, name, args, store, term, frame):
         if name == self.n_step:
@@ -732,7 +732,7 @@ def wellformed_patterns():
     out = []
     for s in ("", "+", "-"):
         for m in ("D", "D.", "D.D", ".D"):
-            for e in ("", "eD", "e+D", "e-D"):
+            for e in ("", "eD", "e+D", "e-D", "ED", "E+D", "E-D"):
                 out.append(s + m + e)
     return out
 
@@ -741,8 +741,8 @@ WELLFORMED = wellformed_patterns()
 
 
 def r5_lexer(facts, rep):
-    rep.rule("C07-R5", "the same number as a query: for each of the 48 shapes of a well-formed literal ([sign] digits [. digits] | "
-                       ". digits, optional exponent with optional sign) an abstract run of Lexer::next shows a path on which exactly "
+    rep.rule("C07-R5", "the same number as a query: for each of the 84 shapes of a well-formed literal ([sign] digits [. digits] | "
+                       ". digits, optional exponent marker e or E with optional sign) an abstract run of Lexer::next shows a path on which exactly "
                        "that shape is consumed as one NUMBER token (so the query route hands the reader the whole literal); and no "
                        "NUMBER token contains a character the reader rejects in that position")
     body = anchor(rep, "C07-R5", facts, c12.NEXT)
